@@ -339,3 +339,24 @@ def field_path(t):
             path.append(t[2])
         t = t[1]
     return t, list(reversed(path))
+
+
+def chain(t):
+    """Access chain of a term: descends through fields, downcasts and unary method calls.
+    field(call(CommitQC::view,(X,)), number) -> (root(X), [..., "view()", "number"])"""
+    names = []
+    while True:
+        if t[0] == "field":
+            names.append(t[2])
+            t = t[1]
+        elif t[0] == "downcast":
+            names.append("as " + t[2])
+            t = t[1]
+        elif t[0] == "call" and len(t[2]) == 1 and "::" in t[1]:
+            names.append(t[1].rsplit("::", 1)[1] + "()")
+            t = t[2][0]
+        elif t[0] in ("try", "await"):
+            t = t[1]
+        else:
+            break
+    return t, list(reversed(names))
